@@ -372,8 +372,9 @@ class SInt:
         oz = SInt.lift(o)
         if oz is None:
             if isinstance(o, (SReal, Fraction, float)):
-                a = SReal(z3.ToReal(self.z))
-                return NotImplemented if rf else f(a, o)
+                a = z3.ToReal(self.z)
+                b = SReal.lift(o)
+                return SReal.mk(f(b, a) if rf else f(a, b))
             return NotImplemented
         return SInt.mk(f(oz, self.z) if rf else f(self.z, oz))
 
